@@ -4,7 +4,7 @@ cd "$(dirname "$0")/.."
 T=${1:-quick}; rc=0
 L=$(mktemp -d /tmp/runall.XXXXXX); echo "logs in $L"
 for p in $(python3 -c "import json;print(' '.join(c['property_id'] for c in json.load(open('MANIFEST.json'))['checks']))"); do
-  s=$(date +%s); python3 check.py $p --tier $T > $L/$p.log 2>&1; r=$?
+  mkdir -p $L; s=$(date +%s); python3 check.py $p --tier $T > $L/$p.log 2>&1; r=$?
   echo "$p rc=$r $(( $(date +%s) - s ))s $(grep -c KNOWN-FINDING $L/$p.log) known $(grep VIOLATION $L/$p.log | head -2 | tr '\n' ' ')"
   [ $r -ne 0 ] && rc=1
 done
